@@ -28,8 +28,8 @@ import (
 
 type RSlot struct {
 	On       bool   `json:"on"`
-	Auth     string `json:"auth,omitempty"` // "" | basic1 | basic2 | hmac1 | hmac2
-	Pull     string `json:"pull,omitempty"` // x | y  (pull path suffix)
+	Auth     string `json:"auth,omitempty"`      // "" | basic1 | basic2 | hmac1 | hmac2
+	Pull     string `json:"pull,omitempty"`      // x | y  (pull path suffix)
 	RouteTok string `json:"route_tok,omitempty"` // "" | rt1 | rt2
 	Methods  string `json:"methods,omitempty"`   // "" | GET
 }
@@ -214,7 +214,7 @@ func runBattery(w *frontWorld, tag string) []string {
 type C18Case struct {
 	Old   CfgSpec `json:"old"`
 	New   CfgSpec `json:"new"`
-	Mode  string  `json:"mode"`  // pause | body-read | forward-callout | failed
+	Mode  string  `json:"mode"`            // pause | body-read | forward-callout | failed
 	Pause string  `json:"pause,omitempty"` // hook label for mode pause
 	Fail  string  `json:"fail,omitempty"`  // kind of failing new content
 }
